@@ -89,9 +89,19 @@ def gen(rng, kind, tier):
             case["a"] = dict(a, cls="SphericalDroplet", width=None)
             case["b"] = dict(b, cls="DiffuseDroplet", width=float(10 ** rng.uniform(-2, 1)))
             case["subclass_operand"] = True
+        if rng.random() < 0.15:
+            # round 7 (C11_19): centres handed over as single-precision arrays (coordinates read from a float32 file);
+            # the values are exactly representable, the merged centre is still the double-precision weighted mean
+            for d in (case["a"], case["b"]):
+                d["pos"] = [float(np.float32(x)) for x in d["pos"]]
+                d["pos32"] = True
         return case
     n = int(rng.integers(3, 9))
     ds = [_drop(rng, dim, cls) for _ in range(n)]
+    if rng.random() < 0.15:
+        for d in ds:
+            d["pos"] = [float(np.float32(x)) for x in d["pos"]]
+            d["pos32"] = True
     return {"droplets": ds, "order_seed": int(rng.integers(1 << 30))}
 
 
@@ -102,6 +112,14 @@ def close(x, y, scale):
 def _mk(d, route=None):
     from .c03 import make_droplet
 
+    if d.get("pos32"):
+        import droplets
+
+        pos = np.asarray(d["pos"], np.float32)
+        assert [float(x) for x in pos] == list(d["pos"])
+        if d["cls"] == "SphericalDroplet":
+            return common.via(droplets.SphericalDroplet(pos, d["radius"]), route)
+        return common.via(droplets.DiffuseDroplet(pos, d["radius"], interface_width=d["width"]), route)
     return common.via(make_droplet(d), route)
 
 
